@@ -306,7 +306,13 @@ func Check(raw json.RawMessage) fw.Result {
 			res.Count("subflows_"+f.Kind, 1)
 		}
 		if got != f.Text {
-			res.Fail("text-"+classify(f.Text, got), fmt.Sprintf("flow %q (%s): %s; pages=%d", f.ID, f.Kind, describeFlowDiff(f.Text, got, o.pageOf), od.pages))
+			sig := "text-" + classify(f.Text, got)
+			if sig == "text-lost" && lostBeforeFloat(f, got, in.Flows) {
+				// narrow class of finding word-lost-before-float: the only difference is one run of
+				// whole words missing immediately before a float of this flow
+				sig = "text-lost-before-float"
+			}
+			res.Fail(sig, fmt.Sprintf("flow %q (%s): %s; pages=%d", f.ID, f.Kind, describeFlowDiff(f.Text, got, o.pageOf), od.pages))
 			continue
 		}
 		res.Count("chars_conserved", int64(len(got)))
@@ -546,6 +552,37 @@ func Check(raw json.RawMessage) fw.Result {
 		}
 	}
 	return res
+}
+
+// lostBeforeFloat tells whether got is the expected text of the flow with exactly one contiguous run
+// of whole words removed, the run ending where a float of this flow is anchored (end of the word of
+// the float's preceding token).
+func lostBeforeFloat(f *Flow, got string, flows []Flow) bool {
+	exp := f.Text
+	gap := len(exp) - len(got)
+	if gap <= 0 {
+		return false
+	}
+	wordStart := func(k int) bool { return k >= len(exp) || exp[k] == 'w' } // 'w' only starts tokens
+	for i := range flows {
+		fl := &flows[i]
+		if fl.Kind != "float" || fl.Parent != f.ID || fl.Prev == "" {
+			continue
+		}
+		k := strings.Index(exp, fl.Prev)
+		if k < 0 {
+			continue
+		}
+		end := k + 1
+		for end < len(exp) && exp[end] != 'w' {
+			end++
+		}
+		start := end - gap
+		if start >= 0 && wordStart(start) && exp[:start]+exp[end:] == got {
+			return true
+		}
+	}
+	return false
 }
 
 func plus1(ps []int) []int {
